@@ -223,7 +223,7 @@ OP(insert_n) {
   vf_reach(1);
   c.finish();
 }
-#define RANGE_OP(NAME, ITB, ITE, CALL, STRONGEXPR, PREFIX)                                              \
+#define RANGE_OP(NAME, NEWSIZE, ITE, CALL, STRONGEXPR, PREFIX)                                              \
   OP(NAME) {                                                                                            \
     Ctx c; c.setup(VF_CLS);                                                                             \
     uint8_t pos = nd8(c.m.n); (void)pos;                                                                \
@@ -231,7 +231,7 @@ OP(insert_n) {
     c.snap(); ARM_FAULT();                                                                              \
     V::iterator r = nullptr; (void)r;                                                                   \
     VF_TRY(c, CALL);                                                                                    \
-    expect_exc(c, must_overflow(c.m.n + src.n));                                                        \
+    expect_exc(c, must_overflow(NEWSIZE));                                                              \
     vf_assert(vf::g_itbad == 0, 1009);                                                                  \
     if (OK(c)) { PREFIX }                                                                               \
     c.post((STRONGEXPR) ? vf::F_STRONG : 0, SRCN, pos);                                                 \
@@ -241,18 +241,18 @@ OP(insert_n) {
     c.finish();                                                                                         \
   }
 #define INS_MODEL c.m.insert_range(pos, src.vals, src.n); vf_assert(r == c.v().begin() + pos, 1004);
-RANGE_OP(insert_range_ptr, 0, 0, r = c.v().insert(c.v().begin() + pos, static_cast<const E *>(src.a()), static_cast<const E *>(src.a() + src.n)), pos == c.m0.n, INS_MODEL)
-RANGE_OP(insert_range_fwd, 0, 0, r = c.v().insert(c.v().begin() + pos, vf::FwdIt<E>(src.a()), vf::FwdIt<E>(src.a() + src.n)), pos == c.m0.n, INS_MODEL)
-RANGE_OP(insert_range_bid, 0, 0, r = c.v().insert(c.v().begin() + pos, vf::BidIt<E>(src.a()), vf::BidIt<E>(src.a() + src.n)), pos == c.m0.n, INS_MODEL)
+RANGE_OP(insert_range_ptr, c.m0.n + src.n, 0, r = c.v().insert(c.v().begin() + pos, static_cast<const E *>(src.a()), static_cast<const E *>(src.a() + src.n)), pos == c.m0.n, INS_MODEL)
+RANGE_OP(insert_range_fwd, c.m0.n + src.n, 0, r = c.v().insert(c.v().begin() + pos, vf::FwdIt<E>(src.a()), vf::FwdIt<E>(src.a() + src.n)), pos == c.m0.n, INS_MODEL)
+RANGE_OP(insert_range_bid, c.m0.n + src.n, 0, r = c.v().insert(c.v().begin() + pos, vf::BidIt<E>(src.a()), vf::BidIt<E>(src.a() + src.n)), pos == c.m0.n, INS_MODEL)
 #define APP_MODEL c.m.insert_range(c.m.n, src.vals, src.n);
-RANGE_OP(append_range_ptr, 0, 0, (pos = c.m.n, c.v().append(static_cast<const E *>(src.a()), static_cast<const E *>(src.a() + src.n))), true, APP_MODEL)
-RANGE_OP(append_range_fwd, 0, 0, (pos = c.m.n, c.v().append(vf::FwdIt<E>(src.a()), vf::FwdIt<E>(src.a() + src.n))), true, APP_MODEL)
+RANGE_OP(append_range_ptr, c.m0.n + src.n, 0, (pos = c.m.n, c.v().append(static_cast<const E *>(src.a()), static_cast<const E *>(src.a() + src.n))), true, APP_MODEL)
+RANGE_OP(append_range_fwd, c.m0.n + src.n, 0, (pos = c.m.n, c.v().append(vf::FwdIt<E>(src.a()), vf::FwdIt<E>(src.a() + src.n))), true, APP_MODEL)
 #define ASG_MODEL c.m.assign_range(src.vals, src.n);
-RANGE_OP(assign_range_ptr, 0, 0, (pos = 0, c.v().assign(static_cast<const E *>(src.a()), static_cast<const E *>(src.a() + src.n))), false, ASG_MODEL)
-RANGE_OP(assign_range_fwd, 0, 0, (pos = 0, c.v().assign(vf::FwdIt<E>(src.a()), vf::FwdIt<E>(src.a() + src.n))), false, ASG_MODEL)
+RANGE_OP(assign_range_ptr, src.n, 0, (pos = 0, c.v().assign(static_cast<const E *>(src.a()), static_cast<const E *>(src.a() + src.n))), false, ASG_MODEL)
+RANGE_OP(assign_range_fwd, src.n, 0, (pos = 0, c.v().assign(vf::FwdIt<E>(src.a()), vf::FwdIt<E>(src.a() + src.n))), false, ASG_MODEL)
 
 // single-pass input iterators (std::istream_iterator-like: all copies share one cursor)
-#define INPUT_OP(NAME, CALL, MODEL)                                                                     \
+#define INPUT_OP(NAME, NEWSIZE, CALL, MODEL)                                                                     \
   OP(NAME) {                                                                                            \
     Ctx c; c.setup(VF_CLS);                                                                             \
     uint8_t pos = nd8(c.m.n); (void)pos;                                                                \
@@ -261,7 +261,7 @@ RANGE_OP(assign_range_fwd, 0, 0, (pos = 0, c.v().assign(vf::FwdIt<E>(src.a()), v
     c.snap();                                                                                           \
     V::iterator r = nullptr; (void)r;                                                                   \
     VF_TRY(c, CALL);                                                                                    \
-    expect_exc(c, must_overflow(c.m.n + src.n));                                                        \
+    expect_exc(c, must_overflow(NEWSIZE));                                                              \
     vf_assert(vf::g_itbad == 0, 1009);                                                                  \
     if (OK(c)) { MODEL }                                                                                \
     c.post(0, SRCN, pos);                                                                               \
@@ -269,9 +269,9 @@ RANGE_OP(assign_range_fwd, 0, 0, (pos = 0, c.v().assign(vf::FwdIt<E>(src.a()), v
     src.destroy();                                                                                      \
     c.finish();                                                                                         \
   }
-INPUT_OP(insert_range_input, r = c.v().insert(c.v().begin() + pos, vf::InIt<E>(&is, false), vf::InIt<E>(&is, true)), INS_MODEL)
-INPUT_OP(append_range_input, (pos = c.m.n, c.v().append(vf::InIt<E>(&is, false), vf::InIt<E>(&is, true))), APP_MODEL)
-INPUT_OP(assign_range_input, (pos = 0, c.v().assign(vf::InIt<E>(&is, false), vf::InIt<E>(&is, true))), ASG_MODEL)
+INPUT_OP(insert_range_input, c.m0.n + src.n, r = c.v().insert(c.v().begin() + pos, vf::InIt<E>(&is, false), vf::InIt<E>(&is, true)), INS_MODEL)
+INPUT_OP(append_range_input, c.m0.n + src.n, (pos = c.m.n, c.v().append(vf::InIt<E>(&is, false), vf::InIt<E>(&is, true))), APP_MODEL)
+INPUT_OP(assign_range_input, (vf_assume(!must_overflow(src.n)), src.n) /* single-pass assign past a fixed capacity cannot be all-or-nothing: outside the claim */, (pos = 0, c.v().assign(vf::InIt<E>(&is, false), vf::InIt<E>(&is, true))), ASG_MODEL)
 
 OP(insert_il) {
   Ctx c; c.setup(VF_CLS);
@@ -662,3 +662,29 @@ OP(access) {
   vf_reach(1);
   c.finish();
 }
+
+// ------------------------------------------------------------------------------------------------ C10: the value argument refers to an element of the same vector
+#define ALIAS_OP(NAME, DECLS, CALL, MODEL, NEWSIZE)                                        \
+  OP(NAME) {                                                                               \
+    Ctx c; c.setup(VF_CLS);                                                                \
+    vf_assume(c.m.n > 0);                                                                  \
+    uint8_t src = nd8(static_cast<uint8_t>(c.m.n - 1));                                    \
+    uint8_t x = c.m.a[src];                                                                \
+    DECLS                                                                                  \
+    VF_TRY(c, CALL);                                                                       \
+    expect_exc(c, must_overflow(NEWSIZE));                                                 \
+    if (OK(c)) { MODEL }                                                                   \
+    c.check_contents_as<10000>(c.m);      /* as if the element had been copied before the call */ \
+    if (OK(c) && c.m.n > c.cap0) vf_reach(2);   /* the reallocating case is covered */     \
+    c.post(vf::F_NO_PREFIX, 0, 0);                                                         \
+    vf_reach(1);                                                                           \
+    c.finish();                                                                            \
+  }
+ALIAS_OP(alias_push_back, , c.v().push_back(c.v()[src]), c.m.push_back(x);, c.m.n + 1u)
+ALIAS_OP(alias_emplace_back, , c.v().emplace_back(c.v()[src]), c.m.push_back(x);, c.m.n + 1u)
+ALIAS_OP(alias_insert_one, uint8_t pos = nd8(c.m.n);, c.v().insert(c.v().begin() + pos, c.v()[src]), c.m.insert(pos, 1, x);, c.m.n + 1u)
+ALIAS_OP(alias_emplace, uint8_t pos = nd8(c.m.n);, c.v().emplace(c.v().begin() + pos, c.v()[src]), c.m.insert(pos, 1, x);, c.m.n + 1u)
+ALIAS_OP(alias_insert_n, uint8_t pos = nd8(c.m.n); uint8_t cnt = nd8(VF_COUNT_MAX);, c.v().insert(c.v().begin() + pos, static_cast<S>(cnt), c.v()[src]), c.m.insert(pos, cnt, x);, c.m.n + cnt)
+ALIAS_OP(alias_resize, uint8_t cnt = nd8(static_cast<uint8_t>(Cfg::CMAX + VF_COUNT_MAX));, c.v().resize(static_cast<S>(cnt), c.v()[src]), c.m.resize(cnt, x);, cnt)
+ALIAS_OP(alias_assign_n, uint8_t cnt = nd8(static_cast<uint8_t>(Cfg::CMAX + VF_COUNT_MAX));, c.v().assign(static_cast<S>(cnt), c.v()[src]), c.m.assign(cnt, x);, cnt)
+ALIAS_OP(alias_append_n, uint8_t cnt = nd8(VF_COUNT_MAX);, c.v().append(static_cast<S>(cnt), c.v()[src]), c.m.insert(c.m.n, cnt, x);, c.m.n + cnt)
